@@ -970,6 +970,8 @@ func (p *Parser) ParseCaseStatement() (*ast.CaseStatement, error) {
 			matchExp.Operator = "=="
 			matchExp.Right = exp
 		case token.REGEX_MATCH:
+			// Keep the comment placed between "case" and the operator
+			SwapLeadingInfix(p.curToken, stmt.Meta)
 			exp, err := p.ParsePrefixExpression()
 			if err != nil {
 				return nil, errors.WithStack(err)
